@@ -48,6 +48,7 @@ AttrShapes(tier) ==
 ClassShapes(tier) ==
   { Shape("class", TRUE, f) : f \in { {}, {"pmiss"}, {"tuple"}, {"variadic"}, {"multi"}, {"multi", "pmiss"}, {"set", "setmulti"}, {"unknownvalue"},
                                        {"tuple", "@tpbound"}, {"set", "@tpbound"}, {"tuple", "@tpbound", "@invariant"},      \* an invariant bounded parameter: the stub shows the parameter without its bound
+                                       {"multi", "@abc"},      \* the class also lists abc.ABC
                                        {"multi", "@privbase"}, {"multi", "@privfirst"} } }   \* a private base with an inherited public method, after / before the public bases      \* "@tpbound": the construct sits in the bound of a type parameter
   \cup { Shape("class", FALSE, {"pmiss", "multi"}) }
 
